@@ -13,8 +13,9 @@ Qed.
 
 Lemma memb_false : forall x l, memb x l = false <-> ~ In x l.
 Proof.
-  intros x l. rewrite <- memb_In. destruct (memb x l); split; intros; try congruence; auto.
-  exfalso; auto.
+  intros x l. split.
+  - intros H Hin. apply memb_In in Hin. congruence.
+  - intros H. destruct (memb x l) eqn:E; auto. apply memb_In in E. contradiction.
 Qed.
 
 Lemma memb_app : forall x a b, memb x (a ++ b) = memb x a || memb x b.
